@@ -1,14 +1,16 @@
 """C16 — run() releases its session resources at every failure point; a later run behaves as if the failed run never happened.
 
-Proof: Props/C16.v (step language Model/Effects.v, hand-written skeletons Model/Skeleton.v: *_impl faithful, *_spec repaired).
+Proof: Props/C16.v (step language Model/Effects.v, hand-written skeletons Model/Skeleton.v: *_impl faithful to the CURRENT
+code -- bracketed, self-initialising; *_before_fix = the code before the repair commits, regression witness only).
 Tie T-skel = K through the guarded hook `vtlengine._verif`: for generated scripts (1-4 statements, 1-3 inputs, DataFrame/CSV
 inputs, with/without output_folder, in-memory and file-backed) and a sample of corpus scripts the event trace is recorded,
 then EVERY event index k is re-run with `_verif.reset(fault_at=k)` in this process with VTL_TEMP_DIRECTORY at a fresh empty
 directory.  Observed per k: an exception was raised, what is left in the temp directory, whether the DuckDB connection is
 still open while the exception is alive, new file descriptors after the exception is dropped, and the result of a following
 clean run against the result of a process that never failed (one subprocess).  The observed (outcome, leak set, event trace)
-is compared with the model's `observe_run` for the same position (coq_eval); the property predicate is evaluated on the
-observations themselves, so a leak is reported as a violation with a replay whatever the model says.
+is compared with the model's `observe_run` of run_impl for the same position (coq_eval) and must equal it everywhere; the
+old skeleton run_before_fix is evaluated next to it only to name a regression.  The property predicate is evaluated on the
+observations themselves, so a leak / history dependence is reported as a violation with a replay whatever the model says.
 Positions of the model that are not hook events (semantic analysis of statement i) are realised by a script whose i-th
 statement is semantically wrong; real configuration errors (VTL_DUCKDB_DECIMAL_WIDTH=3/45, VTL_THREADS=abc) and real load
 errors (duplicate identifiers) are run as well."""
@@ -483,7 +485,7 @@ def run(ctx):
         reset_globals()
         shutil.rmtree(scratch, ignore_errors=True)
     ctx.cov["wall_tie_s"] = round(time.time() - t0, 1)
-    ctx.trusted.append("T-skel: hand-written Model/Skeleton.v tied by K through vtlengine._verif (event order, outcome, leak set per fault "
+    ctx.trusted.append("T-skel: hand-written Model/Skeleton.v (run_impl = current code) tied by K through vtlengine._verif (event order, outcome, leak set per fault "
                        "position); the observation code of harness/props/c16.py (temp-dir listing, weak references to DuckDB "
                        "connections, /proc/self/fd); DuckDB 1.5.5 connection/close semantics are observed, not modelled")
     ctx.assumptions.append("a failure is modelled as raising at an event boundary (the hook raises BEFORE the operation of that event); "
@@ -545,14 +547,14 @@ def _run(ctx, E, cases, corpus_pool, n_corpus, n_seq, scratch, rng):
         body = coq_body(shape, case["as_csv"])
         shapes[case["id"]] = (n, body)
         for k in list(range(len(o["trace"]))) + [None]:
-            for variant in ("impl", "spec"):
+            for variant in ("impl", "before_fix"):
                 exprs.append(model_expr(variant, n, case["fb"], body, None if k is None else n + k))
                 index.append((case["id"], "event", k, variant))
         if case["stmts"] is not None:
             for i in range(n):
                 if case["stmts"][i]["operand"] is None:
                     continue
-                for variant in ("impl", "spec"):
+                for variant in ("impl", "before_fix"):
                     exprs.append(model_expr(variant, n, case["fb"], body, i))
                     index.append((case["id"], "sem", i, variant))
     ctx.oblige("event traces fit the skeleton grammar (conn prefix, init_macros, (load* exec (release fetch?)*)*, fetch*, save_scalars?)",
@@ -565,7 +567,7 @@ def _run(ctx, E, cases, corpus_pool, n_corpus, n_seq, scratch, rng):
     hist = {"faults": 0, "leaky_positions": 0, "clean_after_ok": 0, "real_failures": 0,
             "sem_faults": 0, "sequences": 0, "by_kind": {}}
     tie_bad = []
-    matches = {"impl": 0, "spec": 0, "total": 0}
+    matches = {"impl": 0, "before_fix": 0, "total": 0}
 
     def check_property(case, o, kind, pos_desc, replay, expect_fail=True, real_config=False):
         """The property predicate itself, on the observations of one failing run."""
@@ -586,7 +588,7 @@ def _run(ctx, E, cases, corpus_pool, n_corpus, n_seq, scratch, rng):
         cid = case["id"]
         got = ("Fail" if o["raised"] else "Ok", o["leak"], o["trace"])
         res = {}
-        for variant in ("impl", "spec"):
+        for variant in ("impl", "before_fix"):
             mo, ml, mt = model[(cid, ix_kind, k, variant)]
             mt2 = mt[n_sem_prefix:] if ix_kind == "event" else [x for x in mt if x != LSEM]
             ml2 = [x for x in ml if x != 3]
@@ -595,8 +597,8 @@ def _run(ctx, E, cases, corpus_pool, n_corpus, n_seq, scratch, rng):
                 res["impl_pred"] = (mo, ml2, mt2)
         matches["total"] += 1
         matches["impl"] += res["impl"]
-        matches["spec"] += res["spec"]
-        if not (res["impl"] or res["spec"]):
+        matches["before_fix"] += res["before_fix"]
+        if not res["impl"]:
             tie_bad.append({"case": cid, "pos": [ix_kind, k], "engine": got, "model_impl": res.get("impl_pred")})
 
     for case in live_cases:
@@ -670,19 +672,18 @@ def _run(ctx, E, cases, corpus_pool, n_corpus, n_seq, scratch, rng):
     # ---- tie verdict
     ctx.cov["histogram"] = hist
     ctx.cov["tie_matches"] = matches
-    which = "impl" if matches["impl"] == matches["total"] else ("spec" if matches["spec"] == matches["total"] else "neither")
+    which = "impl" if matches["impl"] == matches["total"] else ("before_fix" if matches["before_fix"] == matches["total"] else "neither")
     ctx.cov["engine_matches_skeleton"] = which
-    ctx.oblige("tie T-skel: observed (outcome, leak set, event trace) at EVERY fault position equals the model's observe_run "
-               "(faithful skeleton run_impl, or -- after a repair -- the bracketed run_spec)", which != "neither" and not tie_bad,
-               json.dumps(tie_bad[:3], default=str))
-    if which == "spec":
-        ctx.log("engine now matches the bracketed skeleton run_spec at every position: Model/Skeleton.v's *_impl terms are out of date "
-                "(replace them by the *_spec ones); the *_refuted theorems then describe the previous code only")
+    ctx.oblige("tie T-skel: observed (outcome, leak set, event trace) at EVERY fault position equals the model's observe_run of the "
+               "current skeleton run_impl", which == "impl" and not tie_bad, json.dumps(tie_bad[:3], default=str))
+    if which == "before_fix":
+        ctx.log("REGRESSION: the engine matches run_before_fix (acquisition before the try) at every position")
     for s in (tie_bad[:2] or [{"case": c["id"], "events": len(traces[c["id"]]["trace"]), "fb": c["fb"], "out": c["out"], "csv": c["as_csv"]}
                               for c in live_cases[:6]]):
         ctx.sample(s)
     ctx.log(f"faults {hist['faults']} (leaky positions {hist['leaky_positions']}), semantic faults {hist['sem_faults']}, sequences {hist['sequences']}, "
-            f"real failures {hist['real_failures']}; model/engine agreement impl {matches['impl']}/{matches['total']} spec {matches['spec']}/{matches['total']}")
+            f"real failures {hist['real_failures']}; model/engine agreement run_impl {matches['impl']}/{matches['total']} "
+            f"(old run_before_fix would agree on {matches['before_fix']}/{matches['total']})")
 
 
 def real_failures(ctx, E, live_cases, shapes, traces, ref, work, hist, check_property, tie_bad):
@@ -695,7 +696,7 @@ def real_failures(ctx, E, live_cases, shapes, traces, ref, work, hist, check_pro
     for case in picks:
         n, body = shapes[case["id"]]
         for tag, w, s in (("W3", 3, None), ("W45", 45, None), ("S3", None, 3)):
-            for variant in ("impl", "spec"):
+            for variant in ("impl", "before_fix"):
                 exprs.append(model_expr(variant, n, case["fb"], body, None, w, s))
                 idx.append((case["id"], tag, variant))
     vals = common.coq_eval(COQ_HEADER, exprs, "c16real")
@@ -716,12 +717,8 @@ def real_failures(ctx, E, live_cases, shapes, traces, ref, work, hist, check_pro
                            real_config=in_config)
             if tag in ("W3", "W45", "S3"):
                 got = ("Fail" if o["raised"] else "Ok", o["leak"], o["trace"])
-                ok_any = False
-                for variant in ("impl", "spec"):
-                    mo, ml, mt = model[(case["id"], tag, variant)]
-                    if (mo, [x for x in ml if x != 3], mt[n:]) == got:
-                        ok_any = True
-                if not ok_any:
+                mo, ml, mt = model[(case["id"], tag, "impl")]
+                if (mo, [x for x in ml if x != 3], mt[n:]) != got:
                     tie_bad.append({"case": case["id"], "pos": ["real", tag], "engine": got, "model_impl": model[(case["id"], tag, "impl")]})
             # history: the variable is unset again (run_once restored the environment) -- NO reset of the module globals here
             c = run_once(case, work)
